@@ -111,8 +111,9 @@ def main():
         if keep and ok:
             d = os.path.join(V, "seeded", name)
             os.makedirs(d, exist_ok=True)
-            shutil.copy(patch, os.path.join(d, "patch.diff"))
-            shutil.copy(demo, os.path.join(d, "demo.py"))
+            for src, dst in ((patch, os.path.join(d, "patch.diff")), (demo, os.path.join(d, "demo.py"))):
+                if os.path.abspath(src) != os.path.abspath(dst):
+                    shutil.copy(src, dst)
             old = {}
             mp = os.path.join(d, "meta.json")
             if os.path.exists(mp):
